@@ -149,6 +149,10 @@ var solverSem = make(chan struct{}, 16)
 // runQuery races the installed solvers on one SMT-LIB file. needAgree>1 asks
 // that many different solvers to return unsat before the answer is trusted.
 func runQuery(file string, timeoutS int, needAgree int, only []string) SolveResult {
+	return runQueryRace(file, timeoutS, needAgree, only)
+}
+
+func runQueryRace(file string, timeoutS int, needAgree int, only []string) SolveResult {
 	type one struct {
 		name, status, out string
 		ms           int64
